@@ -17,7 +17,7 @@ import time
 
 HERE = os.path.dirname(os.path.abspath(__file__))
 SEEDED = os.path.join(HERE, "seeded")
-REPO = "/repo"
+REPO = os.environ.get("VP_REPO", "/repo")
 
 
 def sh(cmd, cwd=None, timeout=3600):
